@@ -181,6 +181,19 @@ func (s *scanner) setPaging(query ast.Query) {
 	s.targetLimit = *query.GetLimit()
 }
 
+// maxResults returns how many rows a sorting scan has to keep: the rows to skip plus the rows to return. A negative
+// skip skips nothing and the sum saturates instead of overflowing (skip N with no limit means limit MaxInt64)
+func (s *scanner) maxResults() int64 {
+	offset := s.targetOffset
+	if offset < 0 {
+		offset = 0
+	}
+	if s.targetLimit > math.MaxInt64-offset {
+		return math.MaxInt64
+	}
+	return offset + s.targetLimit
+}
+
 type memSortingScanner[T any] struct {
 	scanner
 	offset int64
@@ -208,7 +221,7 @@ func (scanner *memSortingScanner[T]) Scan(store *ObjectStore[T], query ast.Query
 	// Longer term, if we're looking for better performance, we could make a version of llrb which takes a comparator
 	// function instead of putting the comparison on the elements, so we don't need to store a context with each row
 	results := &llrb.Tree{}
-	maxResults := scanner.targetOffset + scanner.targetLimit
+	maxResults := scanner.maxResults()
 	for cursor.IsValid() {
 		rowCursor.current = cursor.Current()
 		cursor.Next()
